@@ -488,6 +488,23 @@ def step (d : DState) (line : String) : DState × String :=
       ({ d with cch := p.1 }, match p.2 with | some v => "some " ++ toString v | none => "none")
     | _, _ => bad
   | ["c.clear"] => ({ d with cch := d.cch.clear }, "ok")
+  -- n-fold repetitions of one call (closed forms proved equal to the iterates in BddProofs/CacheRep.lean)
+  | ["c.rep", "insert", a, b, v, n] =>
+    match a.toNat?, b.toNat?, v.toNat?, n.toNat? with
+    | some a, some b, some v, some n =>
+      ({ d with cch := d.cch.insertNFast (UInt64.ofNat a, UInt64.ofNat b) v n }, "ok")
+    | _, _, _, _ => bad
+  | ["c.rep", "get", a, b, n] =>
+    match a.toNat?, b.toNat?, n.toNat? with
+    | some a, some b, some n =>
+      if n = 0 then bad else
+      let p := d.cch.getNFast (UInt64.ofNat a, UInt64.ofNat b) n
+      ({ d with cch := p.1 }, match p.2 with | some v => "some " ++ toString v | none => "none")
+    | _, _, _ => bad
+  | ["c.rep", "clear", n] =>
+    match n.toNat? with
+    | some n => ({ d with cch := d.cch.clearNFast n }, "ok")
+    | none => bad
   | ["c.dump"] =>
     (d, cacheSnapshot d.cch (fun k => toString k.1.toNat ++ "," ++ toString k.2.toNat) toString)
   -- Cache<OpKey,Ref> driven directly (keys need not name stored nodes)
@@ -545,6 +562,10 @@ def step (d : DState) (line : String) : DState × String :=
   | ["raw.reserve", n] =>
     match n.toNat? with
     | some n =>
+      -- `RawTable<(u64,u64)>`: a slot is 24 bytes; the overflow check comes first and touches nothing
+      match R.reserveChecked 24 (R.Raw.mk #[] d.raw.len d.raw.free : R.Raw Nat Nat) n with
+      | .panic => (d, "panic assert")
+      | _ =>
       rawMut d (fun t => match R.reserve t n with | .ok t' => .ok (t', ()) | .hang => .hang | .ub => .ub | .panic => .panic)
         (fun _ => "ok")
     | none => bad
